@@ -251,32 +251,29 @@ def run(ctx):
                     o.violated(ae, rme[0], f"`{g}` is used before it has been stripped of non-internal edges and isolated vertices")
                 # what is removed: edges_to_remove appended exactly on the two non-internal branches
                 lst = txt(rme[0].args[0])
-                apps = [n for n in astx.walk_fn(ae.node) if isinstance(n, ast.Call) and txt(n.func) == f"{lst}.append"]
-                eloops = [n for n in astx.walk_fn(ae.node) if isinstance(n, ast.For) and txt(n.iter) in (f"{Gp}.edges()", f"{Gp}.edges", f"{g}.edges()")]
-                if len(eloops) == 1 and isinstance(eloops[0].body[0], ast.If):
-                    iff = eloops[0].body[0]
-                    e = txt(eloops[0].target)
-                    cvar = None
-                    b = match(pat(f"{e}[0] not in $c and {e}[1] not in $c"), iff.test)
-                    if b is None:
-                        o.undecided(f"edge classification `{txt(iff.test)}` not recognised", ae, iff)
+                eloops = [n for n in astx.walk_fn(ae.node) if isinstance(n, ast.For) and txt(n.iter) in (f"{Gp}.edges()", f"{Gp}.edges", f"{g}.edges()", f"{g}.edges", f"list({Gp}.edges())")
+                          and any(isinstance(x, ast.Call) and txt(x.func) in (f"{lst}.append", f"{lst}.extend") for x in ast.walk(n))]
+                ldefs = sc.assigns.get(lst, [])
+                from gcmstatic import conform as _cf
+                if len(eloops) == 1 and len(ldefs) == 1 and isinstance(rme[0].args[0], ast.Name):
+                    el = eloops[0]
+                    graph = astx.root_name(el.iter.func if isinstance(el.iter, ast.Call) and txt(el.iter.func) != "list" else (el.iter.args[0].func if isinstance(el.iter, ast.Call) else el.iter))
+                    # the component variable: the (re-bound) target of the enclosing loop over the components
+                    outer = [l for l in par.loops_of(el) if isinstance(l, ast.For)]
+                    cvar = txt(outer[0].target) if outer and isinstance(outer[0].target, ast.Name) else None
+                    if cvar is None:
+                        o.undecided("edge classification loop: enclosing component loop not recognised", ae, el)
                     else:
-                        cvar = txt(b["c"])
-                        br_out = [n for n in apps if par.branch_of(n, iff) == "body"]
-                        nxt = iff.orelse[0] if len(iff.orelse) == 1 and isinstance(iff.orelse[0], ast.If) else None
-                        if nxt is None or match(pat(f"{e}[0] in {cvar} and {e}[1] in {cvar}"), nxt.test) is None:
-                            o.undecided("internal-edge branch not recognised", ae, iff)
+                        others = sorted((astx.names_in(el) - {graph, cvar, lst, "self"}) - {x.id for x in ast.walk(el) if isinstance(x, ast.Name) and isinstance(x.ctx, ast.Store)})
+                        got = _cf.snippet_term([ldefs[0], el], lst, [graph, cvar] + others)
+                        want = _cf.term_of_src("def f(G, c):\n    return [e for e in G.edges() if not (e[0] in c and e[1] in c)]\n")
+                        if got == want:
+                            o.holds(ae, el, "removed from the working copy: exactly the edges with fewer than two end points in the component")
+                        elif tm.has_opaque(got):
+                            o.undecided(f"edge classification loop not understood: {tm.show(got)[:160]}", ae, el)
                         else:
-                            br_in = [n for n in apps if par.branch_of(n, nxt) == "body"]
-                            br_if = [n for n in apps if par.branch_of(n, nxt) == "orelse"]
-                            if br_out and not br_in and br_if and all(txt(n.args[0]) == e for n in apps):
-                                o.holds(ae, iff, "removed from the working copy: exactly the edges with fewer than two end points in the component")
-                            elif br_in:
-                                o.violated(ae, br_in[0], "internal edges of the component are removed from the working copy")
-                            elif not br_if:
-                                o.violated(ae, nxt, "interface edges stay in the working copy: they are counted again among the internal edge states")
-                            else:
-                                o.violated(ae, iff, "edges outside the component stay in the working copy")
+                            o.violated(ae, el, f"the edges removed from the working copy are  {tm.show(got)[:300]}  - they must be exactly the edges with fewer than two end points "
+                                               f"in the component:  {tm.show(want)[:300]}  (internal edges removed, or interface / outside edges left in)")
                 else:
                     o.undecided("edge classification loop not recognised", ae)
                 # isolated vertices
@@ -288,6 +285,8 @@ def run(ctx):
                         o.holds(ae, rmn[0], "exactly the isolated vertices are dropped")
                     else:
                         o.violated(ae, rmn[0], f"vertices dropped under `{cond}`, not exactly the isolated ones")
+                elif txt(a) in (f"list(nx.isolates({g}))", f"nx.isolates({g})", f"list(networkx.isolates({g}))", f"tuple(nx.isolates({g}))") and prog.external(ae.module, ast.parse("nx.isolates", mode="eval").body) in ("networkx.isolates", None):
+                    o.holds(ae, rmn[0], "exactly the isolated vertices are dropped (networkx.isolates, materialised before the removal)" if txt(a).startswith(("list", "tuple")) else "exactly the isolated vertices are dropped")
                 else:
                     o.undecided("isolated-vertex removal not recognised", ae, rmn[0])
         # get_edge_combinations: every subset size 0..E, count connected remainders, record the size
@@ -319,7 +318,15 @@ def run(ctx):
             app = [n for n in astx.walk_fn(gec.node) if isinstance(n, ast.Call) and isinstance(n.func, ast.Attribute) and n.func.attr == "append" and n.args and txt(n.args[0]).startswith("len(")]
             if len(conn) == 1 and len(app) == 1:
                 ifn = epar.stmt_of(conn[0])
-                if isinstance(ifn, ast.If) and ifn.test is conn[0] and epar.branch_of(app[0], ifn) == "body":
+                if not isinstance(ifn, ast.If):
+                    # the test may be bound to a local first: ok = nx.is_connected(t); if ok: ...
+                    facts_ = rules.known_facts(epar, app[0])
+                    hit_ = [(t_, p_) for t_, p_ in facts_ if txt(conn[0]) in txt(esc.resolve(t_))]
+                    if len(hit_) == 1 and isinstance(epar.stmt_of(hit_[0][0]), ast.If):
+                        ifn = epar.stmt_of(hit_[0][0])
+                        if not hit_[0][1] or txt(esc.resolve(hit_[0][0])) != txt(conn[0]):
+                            ifn = ast.If(test=ast.UnaryOp(op=ast.Not(), operand=conn[0]), body=[], orelse=[])
+                if isinstance(ifn, ast.If) and (ifn.test is conn[0] or txt(esc.resolve(ifn.test)) == txt(conn[0])) and epar.branch_of(app[0], ifn) == "body":
                     tst = txt(conn[0].args[0])
                     rm = [n for n in astx.walk_fn(gec.node) if isinstance(n, ast.Call) and isinstance(n.func, ast.Attribute) and n.func.attr == "remove_edges_from" and txt(n.func.value) == tst]
                     if rm and rules.is_copy_of(esc, tst, [Ge]) or (rm and rules.copy_source(esc.single_def(tst, allow_mutated=True)) == Ge):
